@@ -125,6 +125,17 @@ Theorem C01_var_len_uint8 : forall n out rest, n < 256 ->
 Proof. exact var_len_uint8_roundtrip. Qed.
 Print Assumptions C01_var_len_uint8.
 
+(* the literal-context function of the decoder spec (RFC 7932 section 7.1, Lut0/Lut1/Lut2 transcribed
+   from the RFC) is the function the encoder's tables (constants.rs) compute, for all 4 x 256 x 256 arguments *)
+Theorem C01_context_tables : rfc_lut0 ++ rfc_lut1 = kUTF8ContextLookup /\ rfc_lut2 = kSigned3BitContextLookup.
+Proof. exact context_tables_match. Qed.
+Print Assumptions C01_context_tables.
+
+Theorem C01_context_id : forall mode p1 p2, mode < 4 -> p1 < 256 -> p2 < 256 ->
+  context_id mode p1 p2 = enc_context mode p1 p2.
+Proof. exact context_id_matches_encoder. Qed.
+Print Assumptions C01_context_id.
+
 (* ---------------------------------------------------------------- (e) the composition *)
 Section Composition.
   Variable dict_word : N -> N -> list N.
